@@ -837,7 +837,10 @@ func (f *fragment) unprotectedSetRow(row *Row, rowID uint64) (changed bool, err 
 		citer, _ := seg.data.Containers.Iterator(f.shard << shardVsContainerExponent)
 		for citer.Next() {
 			k, c := citer.Value()
-			f.storage.Containers.Put(headContainerKey+(k%(1<<shardVsContainerExponent)), c)
+			// Freeze the container: it is now shared between the caller's row
+			// and the fragment's storage, so either side must copy it before
+			// writing to it.
+			f.storage.Containers.Put(headContainerKey+(k%(1<<shardVsContainerExponent)), c.Freeze())
 		}
 	}
 
